@@ -138,6 +138,7 @@ func (c *VirtualTable) Open() (sqlite.VirtualCursor, error) {
 	return &Cursor{
 		common: common,
 		ctx:    c.module.sc.ctx,
+		keyCol: c.common.KeyCol,
 	}, nil
 }
 
@@ -160,6 +161,7 @@ func (c *VirtualTable) Destroy() error {
 type Cursor struct {
 	common *s3db.Cursor
 	ctx    context.Context
+	keyCol int
 }
 
 func (c *Cursor) Next() error {
@@ -167,6 +169,11 @@ func (c *Cursor) Next() error {
 }
 
 func (c *Cursor) Column(ctx *sqlite.VirtualTableContext, i int) error {
+	if i != c.keyCol && ctx.NoChange() {
+		// Column of an UPDATE that the statement does not assign: leave it
+		// unset so that Update() sees NoChange() and keeps its write time.
+		return nil
+	}
 	v, err := c.common.Column(i)
 	if err != nil {
 		return toSqlite(err)
